@@ -164,8 +164,9 @@ struct Res {
     size: usize,
     /// the normalised report (JSON text)
     report: String,
-    /// digest of the produced asset with the manifest store removed (0 for reads)
-    content: u64,
+    /// digests of the produced asset with the manifest store (0) blanked in place, (1) removed by the SDK's
+    /// writer; 0 for reads and for a method that is not stable between two plain runs of the operation
+    content: [u64; 2],
 }
 
 impl Res {
@@ -187,7 +188,7 @@ impl Res {
     }
     /// Short description for messages: everything but the report text, plus the first differing report paths.
     fn brief(&self) -> String {
-        format!("{{state {} codes {:?} size {} content {:016x}}}", self.state, self.codes, self.size, self.content)
+        format!("{{state {} codes {:?} size {} content {:016x}/{:016x}}}", self.state, self.codes, self.size, self.content[0], self.content[1])
     }
     fn report_diff(&self, other: &Res) -> String {
         let a: serde_json::Value = serde_json::from_str(&self.report).unwrap_or(serde_json::Value::Null);
@@ -254,19 +255,24 @@ fn res_of_output(format: &str, out: &[u8], region: Option<(usize, usize)>) -> Re
         v[at..at + len].iter_mut().for_each(|b| *b = 0);
         vh::digest(&v)
     };
-    let content = if let Some((at, len)) = region {
-        blank(at, len)
+    let located = match region {
+        Some(r) => Some(r),
+        None => vh::catch(|| sdk::store_of(format, out).ok().and_then(|st| sdk::find_sub(out, &st).map(|p| (p, st.len())))).ok().flatten(),
+    };
+    let blanked = match located {
+        Some((at, len)) => blank(at, len),
+        None => 0,
+    };
+    let removed = if region.is_some() {
+        0 // the harness embedded the manifest itself (offsets not adjusted): nothing for the SDK's remover to do
     } else {
-        let located = vh::catch(|| sdk::store_of(format, out).ok().and_then(|st| sdk::find_sub(out, &st).map(|p| (p, st.len())))).ok().flatten();
-        match located {
-            Some((at, len)) => blank(at, len),
-            None => match vh::catch(|| c2pa::verif_hooks::remove_manifest(format, out)) {
-                Ok(Ok(stripped)) => vh::digest(&stripped),
-                Ok(Err(e)) => vh::digest(&format!("strip-error:{}", error_variant(&e))),
-                Err(_) => vh::digest(&"strip-panic"),
-            },
+        match vh::catch(|| c2pa::verif_hooks::remove_manifest(format, out)) {
+            Ok(Ok(stripped)) => vh::digest(&stripped),
+            Ok(Err(e)) => vh::digest(&format!("strip-error:{}", error_variant(&e))),
+            Err(_) => vh::digest(&"strip-panic"),
         }
     };
+    let content = [blanked, removed];
     Res { state, codes, size: out.len(), report, content }
 }
 
@@ -377,7 +383,7 @@ fn exec(op: &IoOp, src_w: &Wrap, dst_w: &Wrap, selftest: bool) -> Exec {
                 let s = wrap(Shared::new(a.to_vec()), src_w, selftest, &stats);
                 let r = Reader::from_context(context()).with_stream(&op.format, s)?;
                 let v = sdk::verdict(&r);
-                Ok(Res { state: v.state, codes: v.codes, size: 0, report: canon(&sdk::report_same_bytes(&r)), content: 0 })
+                Ok(Res { state: v.state, codes: v.codes, size: 0, report: canon(&sdk::report_same_bytes(&r)), content: [0, 0] })
             }
             "ingredient" => {
                 let mut s = wrap(Shared::new(a.to_vec()), src_w, selftest, &stats);
@@ -400,7 +406,7 @@ fn exec(op: &IoOp, src_w: &Wrap, dst_w: &Wrap, selftest: bool) -> Exec {
                 codes.sort();
                 let mut v = serde_json::to_value(&*ing).unwrap_or(serde_json::Value::Null);
                 sdk::strip_keys(&mut v, &["validation_time", "validationTime"]);
-                Ok(Res { state, codes, size: ing.manifest_data().map(|m| m.len()).unwrap_or(0), report: canon(&v), content: 0 })
+                Ok(Res { state, codes, size: ing.manifest_data().map(|m| m.len()).unwrap_or(0), report: canon(&v), content: [0, 0] })
             }
             "hashflow" => {
                 // placeholder -> embed -> update_hash_from_stream(wrapped stream) -> sign_embeddable -> patch
@@ -433,8 +439,19 @@ fn exec(op: &IoOp, src_w: &Wrap, dst_w: &Wrap, selftest: bool) -> Exec {
     Exec { result, stats, phases }
 }
 
-fn reference(op: &IoOp) -> Result<Res, String> {
-    static REFS: OnceLock<Mutex<HashMap<IoOp, Result<Res, String>>>> = OnceLock::new();
+fn masked(mut r: Res, mask: [bool; 2]) -> Res {
+    for i in 0..2 {
+        if !mask[i] {
+            r.content[i] = 0;
+        }
+    }
+    r
+}
+
+/// Fault-free result with the content-comparison methods that are not reproducible for this operation
+/// masked out (e.g. blanking leaves the PNG chunk CRC, removal leaves the RIFF C2PA chunk).
+fn reference(op: &IoOp) -> Result<(Res, [bool; 2]), String> {
+    static REFS: OnceLock<Mutex<HashMap<IoOp, Result<(Res, [bool; 2]), String>>>> = OnceLock::new();
     let refs = REFS.get_or_init(|| Mutex::new(HashMap::new()));
     if let Some(r) = refs.lock().unwrap().get(op) {
         return r.clone();
@@ -442,9 +459,12 @@ fn reference(op: &IoOp) -> Result<Res, String> {
     let run1 = exec(op, &Wrap::Plain, &Wrap::Plain, false).result;
     let run2 = exec(op, &Wrap::Plain, &Wrap::Plain, false).result;
     let r = match (run1, run2) {
-        (Ok(Ok(a)), Ok(Ok(b))) => {
+        (Ok(Ok(mut a)), Ok(Ok(mut b))) => {
+            let mask = [a.content[0] == b.content[0], a.content[1] == b.content[1]];
+            a = masked(a, mask);
+            b = masked(b, mask);
             if a == b {
-                Ok(a)
+                Ok((a, mask))
             } else {
                 let mut m = format!("two plain runs differ in {} ({} vs {}) [{}]", a.diff(&b), a.brief(), b.brief(), a.report_diff(&b));
                 m.truncate(600);
@@ -473,7 +493,7 @@ struct ChunkCase {
 }
 
 fn judge_chunk(run: &Run, c: &ChunkCase, selftest: bool) -> CaseResult {
-    let want = match reference(&c.op) {
+    let (want, mask) = match reference(&c.op) {
         Ok(r) => r,
         Err(_) => {
             run.count("skipped_no_reference");
@@ -498,7 +518,8 @@ fn judge_chunk(run: &Run, c: &ChunkCase, selftest: bool) -> CaseResult {
             format!("C35:chunked-{}-{}-fails-{}", c.op.kind, c.target, error_variant(&e)),
             format!("{what}: the plain-cursor run succeeds but the chunked run fails: {e:?}"),
         )),
-        Ok(Ok(mut got)) => {
+        Ok(Ok(got)) => {
+            let mut got = masked(got, mask);
             if selftest && c.max_piece == 1 {
                 got.size += 1;
             }
@@ -531,7 +552,7 @@ fn plan_name(p: &FaultPlan) -> String {
 }
 
 fn judge_fault(run: &Run, c: &FaultCase, selftest: bool) -> CaseResult {
-    let want = match reference(&c.op) {
+    let (want, mask) = match reference(&c.op) {
         Ok(r) => r,
         Err(_) => {
             run.count("skipped_no_reference");
@@ -547,7 +568,7 @@ fn judge_fault(run: &Run, c: &FaultCase, selftest: bool) -> CaseResult {
     let what = format!("{} {} stream, I/O call #{} (phase {phase}) fails with {kind}", c.op.name(), c.target, c.plan.at);
     let res = match ex.result {
         Err(p) => return Err(Fail::new(format!("C35:panic:{}", vh::core::panic_site(&p)), format!("{what}: panic {p}"))),
-        Ok(r) => r,
+        Ok(r) => r.map(|g| masked(g, mask)),
     };
     if !fired {
         // the planned call was not reached (operation ended earlier) or Ok(0) does not apply to that call
